@@ -23,6 +23,7 @@ type Ctx struct {
 	eff *Eff
 	streamOracle func(fn *ssa.Function, v ssa.Value) bool
 	minLenMemo   map[string][2]int64
+	validators   map[*ssa.Function]*ssa.Function
 }
 
 // Info is the descriptive part of the evidence.
